@@ -228,6 +228,12 @@ func scenModes(out *scenOut, r *rng, thorough bool) {
 		termDuringStartup(out, cause, true) // (child process; reports under C04 and C05)
 	}
 	modesMethodsDuringStartup(out)
+	for _, cause := range []string{"quitmsg", "kill", "ctx", "interrupt"} {
+		noRendererRuns(out, cause) // (the C05 part: a program without a renderer writes nothing)
+	}
+	for _, exit := range []string{"quit", "kill", "quit", "kill"} {
+		modesMethodsWhileRunning(out, r, exit)
+	}
 	for rep := 0; rep < reps; rep++ {
 		for bits := 0; bits < 32; bits++ {
 			o := modeOpts{alt: bits&1 != 0, cell: bits&2 != 0, all: bits&4 != 0, nopaste: bits&8 != 0, focus: bits&16 != 0}
@@ -467,4 +473,84 @@ func modesMethodsDuringStartup(out *scenOut) {
 		run.p.Kill()
 		run.wait(3 * time.Second)
 	}
+}
+
+// modesMethodsWhileRunning: the deprecated Program methods (EnterAltScreen, EnableMouseCellMotion,
+// EnableMouseAllMotion, SetWindowTitle and their opposites) called from another goroutine on a
+// RUNNING program, in a seeded order, then the program ends: whatever they switched on is off again
+// when Run returns (C05: "every terminal setting Bubble Tea may have changed"). A title given with
+// SetWindowTitle BEFORE Run is written at start-up.
+func modesMethodsWhileRunning(out *scenOut, r *rng, exit string) {
+	ctl := newRecCtl()
+	buf := &safeBuffer{}
+	p := tea.NewProgram(recModel{c: ctl}, tea.WithOutput(buf), tea.WithInput(nil), tea.WithoutSignalHandler(), tea.WithFPS(120))
+	p.SetWindowTitle("before-run")
+	done := make(chan error, 1)
+	go func() { _, err := p.Run(); done <- err }()
+	if !waitFor(3*time.Second, func() bool { return ctl.log.has("view-exit", "") }) {
+		p.Kill()
+		<-done
+		return
+	}
+	methods := []struct {
+		name string
+		f    func()
+	}{
+		{"EnterAltScreen", p.EnterAltScreen}, {"ExitAltScreen", p.ExitAltScreen},
+		{"EnableMouseCellMotion", p.EnableMouseCellMotion}, {"DisableMouseCellMotion", p.DisableMouseCellMotion},
+		{"EnableMouseAllMotion", p.EnableMouseAllMotion}, {"DisableMouseAllMotion", p.DisableMouseAllMotion},
+		{"SetWindowTitle", func() { p.SetWindowTitle("while-running") }},
+	}
+	var names []string
+	alt := false
+	n := r.rangeIn(3, 12)
+	desc := ""
+	for i := 0; i < n; i++ {
+		m := methods[r.intn(len(methods))]
+		names = append(names, m.name)
+		desc = fmt.Sprintf("SetWindowTitle before Run; on the running program: %s; exit=%s", strings.Join(names, ", "), exit)
+		m.f()
+		switch m.name {
+		case "EnterAltScreen":
+			alt = true
+		case "ExitAltScreen":
+			alt = false
+		}
+		t := newVterm(80, 24)
+		t.write([]byte(buf.String()))
+		if t.onAlt != alt {
+			out.fail(finding{Property: "C12", Class: "new", What: "Program." + m.name + "() on a running program: the alt screen is not what the calls so far asked for", Input: desc,
+				Expected: fmt.Sprint(alt), Observed: fmt.Sprint(t.onAlt)})
+			break
+		}
+	}
+	out.record("methods-while-running/"+exit, desc)
+	if !strings.Contains(buf.String(), "\x1b]2;before-run\a") && !strings.Contains(buf.String(), "\x1b]2;before-run\x1b\\") {
+		out.fail(finding{Property: "C12", Class: "new", What: "a window title given with Program.SetWindowTitle before Run was not written at start-up", Input: desc, Observed: fmt.Sprintf("%q", firstN(buf.String(), 120))})
+	}
+	switch exit {
+	case "quit":
+		p.Quit()
+	case "kill":
+		p.Kill()
+	}
+	select {
+	case <-done:
+	case <-time.After(4 * time.Second):
+		out.fail(finding{Property: "C04", Class: "new", What: "Run does not return", Input: desc})
+		return
+	}
+	time.Sleep(10 * time.Millisecond)
+	t := newVterm(80, 24)
+	t.write([]byte(buf.String()))
+	if got, initial := vtModes(t), (modeSpec{}).String(); got != initial {
+		out.fail(finding{Property: "C05", Class: "new", What: "terminal not restored when Run returns (modes switched with the Program methods)", Input: desc, Expected: initial, Observed: got})
+	}
+}
+
+func firstN(s string, n int) string {
+	if len(s) > n {
+		return s[:n]
+	}
+	return s
 }
